@@ -60,6 +60,8 @@ func init() {
 				"lisp.langSpecialOps":  "as langBuiltins",
 				"lisp.langMacros":      "as langBuiltins",
 				"lisp.singletonNil":    "the empty list Nil() hands out: guarded singleton (isSingleton / assertNotSingleton, snapshotted by checkSingleton in checked builds); MUT.* rules refuse stores into it",
+				"lisp.initSnapshot":    "checked builds only (build tag elpscheck): the copy of the three singletons taken at init, compared by checkSingleton to detect a write into them; never handed to programs",
+				"lisp.sealCheck":       "checked builds only (build tag elpscheck): the fingerprint registry of sealed trees used to detect writes into shared parsed programs; holds no value a program can reach",
 				"lisp/lisplib/libschema.validatorMarker": "identity-only credential of schema validators: a Native cell compared by pointer in isValidator, never evaluated, bound or written after init",
 			}
 			// definition tables: slices of builtin definitions (formals sealed at registration,
